@@ -30,10 +30,11 @@ pub fn deg16(a: i32) -> Angle {
     Angle::from_degrees(a as f32 / 16.0)
 }
 
-/// the sweep of an arc / sector descriptor: "sw" in 1/16 degree, or - if "sw" is 0 and "swm" is present - "swm" in 1/1000 degree
+/// the sweep of an arc / sector descriptor: "sw" in 1/16 degree, or - if present - "swm" in 1/1000 degree (then "sw" is
+/// the value the trace checker works with: the sweep rounded towards zero to 1/16 degree)
 fn sweep_of(d: &Value, sw: i32) -> Angle {
     match d.get("swm").and_then(|v| v.as_i64()) {
-        Some(m) if sw == 0 && m != 0 => Angle::from_degrees(m as f32 / 1000.0),
+        Some(m) => Angle::from_degrees(m as f32 / 1000.0),
         _ => deg16(sw),
     }
 }
@@ -69,11 +70,11 @@ impl Shape {
                 size_json(r.corners.top_left), size_json(r.corners.top_right),
                 size_json(r.corners.bottom_right), size_json(r.corners.bottom_left)]}),
             Shape::Triangle(t) => json!({"k":"triangle","v":[pt_json(t.vertices[0]),pt_json(t.vertices[1]),pt_json(t.vertices[2])]}),
-            // "swm": a sweep too small for the 1/16 degree unit of "sw" (then "sw" is 0), in 1/1000 degree
+            // "swm": a sweep that is not a multiple of the 1/16 degree unit of "sw", in 1/1000 degree
             Shape::Sector(s, a0, sw) => {
                 let mut v = json!({"k":"sector","tl":pt_json(s.top_left),"d":s.diameter,"a0":a0,"sw":sw});
                 let swm = (s.angle_sweep.to_degrees() * 1000.0).round() as i32;
-                if *sw == 0 && swm != 0 {
+                if (*sw as i64 * 125 - swm as i64 * 2).abs() > 2 {
                     v["swm"] = json!(swm);
                 }
                 v
@@ -81,7 +82,7 @@ impl Shape {
             Shape::Arc(s, a0, sw) => {
                 let mut v = json!({"k":"arc","tl":pt_json(s.top_left),"d":s.diameter,"a0":a0,"sw":sw});
                 let swm = (s.angle_sweep.to_degrees() * 1000.0).round() as i32;
-                if *sw == 0 && swm != 0 {
+                if (*sw as i64 * 125 - swm as i64 * 2).abs() > 2 {
                     v["swm"] = json!(swm);
                 }
                 v
